@@ -16,4 +16,4 @@ require (
 	golang.org/x/sys v0.38.0 // indirect
 )
 
-replace github.com/itchyny/gojq => /tmp/c1516/repo
+replace github.com/itchyny/gojq => /tmp/c17/repo
